@@ -34,7 +34,7 @@ Proof. apply all_zero_false_iff. exists 128%N. split; [apply in_elt|discriminate
 Lemma conn_request_nonzero_byte dg idl ops m acts code :
   let w := fst (mcexec (minit dg idl) ops) in
   let c := snd (mcexec (minit dg idl) ops) in
-  wown w = 1 -> cclosed c = false -> (cdg c = true \/ cact c = false) ->
+  wown w = 1 -> cclosed c = false -> cgone c = false -> (cdg c = true \/ cact c = false) ->
   0 < cidl c -> cidl c <= length m -> (hd 0 m < 128)%N ->
   (exists b, In b (firstn (cidl c) m) /\ b <> 0%N) ->
   forallb is_reply_act acts = true ->
@@ -47,7 +47,7 @@ Lemma conn_request_nonzero_byte dg idl ops m acts code :
        [mark id ++ paybytes p0], false) /\
     marmed w' = false /\ wown w' = 1 /\ wlog w' = wlog w ++ [mkent (wstep w) (mark id) p0].
 Proof.
-  intros w c H1 H2 H3 H4 H5 H6 H7 H8. apply conn_request_answered_once; try assumption.
+  intros w c H1 H2 H2' H3 H4 H5 H6 H7 H8. apply conn_request_answered_once; try assumption.
   apply all_zero_false_iff. exact H7.
 Qed.
 
